@@ -225,6 +225,12 @@ func (x *Exec) callFunction(st *State, fr *Frame, site ssa.Instruction, fn *ssa.
 		return
 	}
 	if c == nil {
+		if dc := x.defaultContract(fn); dc != nil {
+			c = dc
+			key = dc.Key
+		}
+	}
+	if c == nil {
 		engineErr("no contract for %s (called from %s)", key, fr.fn)
 	}
 	if c.Inline {
@@ -244,6 +250,28 @@ func (x *Exec) callFunction(st *State, fr *Frame, site ssa.Instruction, fn *ssa.
 		}
 	}
 	x.applyContract(st, fr, site, c, env, fn.Signature, args, kn, kp)
+}
+
+// effectFreePkgs: standard-library packages whose package-level functions neither touch state the
+// contracts speak about nor call back into the repository (formatting, conversion, logging,
+// arithmetic). A call of such a function that has no explicit contract gets the default contract
+// "no event, modifies nothing, result arbitrary, does not panic" - recorded under the assumed
+// contracts as "default:<name>" - so that adding a log line or a formatted error does not turn a
+// check into an engine error. Methods and everything else still need an explicit contract.
+var effectFreePkgs = map[string]bool{"fmt": true, "log": true, "errors": true, "strconv": true, "strings": true,
+	"unicode": true, "unicode/utf8": true, "math": true, "math/bits": true, "path": true, "sort": false}
+
+func (x *Exec) defaultContract(fn *ssa.Function) *Contract {
+	if fn.Pkg == nil || !effectFreePkgs[fn.Pkg.Pkg.Path()] || fn.Signature.Recv() != nil {
+		return nil
+	}
+	key := "default:" + fnKey(fn)
+	if c := x.cs.Funcs[key]; c != nil {
+		return c
+	}
+	c := &Contract{Key: key, Short: fn.Name(), Assumed: true, Loops: map[int]*LoopSpec{}, PureParams: map[string]bool{}}
+	x.cs.Funcs[key] = c
+	return c
 }
 
 // autoInlinable: fn belongs to the repository, and it is not already being executed on this call
